@@ -7,6 +7,14 @@
     CollectDet holds for the lexicographic order on positions and is refuted for `line smaller or column smaller`):
     sources with up to three independent errors of several kinds on a grid of lines x places (ResolverGen family
     "collect": every way in which line order and column order agree or disagree) are parsed 200 times each.
+    HISTORIES: spec/ParseHistory.tla -- ParseProgram is a function of the source alone; the context a parser keeps
+    while it walks a source (inside an action, loop depth, inside a function, pending `cmd | getline`, unclaimed comma
+    lists) is state of ONE parse.  MC_ParseHistory: HistoryIndependent over all histories of up to four (thorough: eight)
+    parses; refuted when a recycled parser keeps context fields (Survives # {}).  Gen_ParseHistory exports histories
+    (a rejected source failing at every kind of place, then every statement kind in every context; random walks of 5
+    sources); the replayer parses them in that order in one process, three rounds: accept/reject as specified, and
+    verdict, error text and position, disassembly and compiled tables equal to those of the FIRST parse of the same
+    text in the process; a deviation is confirmed in a new process; a panic of ParseProgram is a violation.
 (b) sharing: spec/SharedProgram.tla (MC_SharedProgram: Immutable, NoSharedWrite, NoForeignRead, Equivalent,
     RegexesAsCompiled over all interleavings of processes that execute the program once or twice, every execution
     with an interpreter of its own; instructions include the compiled regex literal, the same source compiled at run
@@ -16,8 +24,15 @@
     Trace_SharedProgram validates recorded sequential and concurrent executions through every interface (digest of
     the Program, state of its compiled regexes included, before/after every execution; result = result of a single
     execution); the recording of the fixed menu is repeated under the race detector (thorough: also random programs).
+    COMMANDS: instructions that start a command (system, cmd | getline, print | cmd, close) with a command string
+    that is private state of the interpreter (a variable of Config.Vars, different for every execution); starting a
+    command takes two steps (argument vector built, process started); the slip SharedShellArgs (the vector is ONE
+    process-level location) is refuted.  Gen_SharedProgram family "shell": one Program, NG executions one after the
+    other and then NG goroutines x 2-3 executions at the same time, each with its own id; every output must be what
+    the specification predicts for ITS id; the family is replayed a second time under the race detector, and the
+    recorded menu contains two such sources.
 """
-import copy, glob, json, os, re, threading
+import copy, glob, json, os, random, re, threading
 from vlib import MachineryError
 
 
@@ -28,6 +43,16 @@ def corrupt(case, rnd):
         # tokens (values >= 10000: random numbers, the initial seed) may be any number: corrupt a plain value
         plain = [i for i, v in enumerate(out) if v < 10000]
         out[rnd.choice(plain)] += 1
+        return c
+    if c.get('fam') == 'shell':
+        # the prediction of one execution: a value another command string would give, or a plain value off by one
+        e = rnd.choice(c['expect'])
+        j = rnd.randrange(len(e['out']))
+        e['out'][j] = e['out'][j] + 1
+        return c
+    if c.get('fam') == 'history':
+        s = rnd.choice(c['hist'])
+        s['v'] = 'reject' if s['v'] == 'accept' else 'accept'
         return c
     if c.get('fam') == 'collect' and c['verdict'] == 'reject' and rnd.random() < 0.5:
         c['distinct'] = 2            # "repeated parses report two different errors"
@@ -43,6 +68,12 @@ def corrupt_event(ev, rnd):
             e['after'] = e['after'][:-1] + ('0' if e['after'][-1] != '0' else '1')
         else:
             e['result'] = e['result'] + 'z'
+        return e
+    if e.get('op') == 'parse' and 'src' in e:
+        if rnd.random() < 0.5:
+            e['v'] = 'reject' if e['v'] == 'accept' else 'accept'
+        else:
+            e['same'] = False
         return e
     return None
 
@@ -113,7 +144,15 @@ def run(ctx):
                 'own, process i through interface ApiOf(i): New+Execute, ExecProgram, New+ExecuteContext) '
                 'exported from Gen_SharedProgram and imposed on the real executions one VM instruction at a time '
                 '(non-trivial with >= 2 executions and a non-empty body); or one recorded trace: a source parsed 50 times, '
-                'then executed 9 times in a row and from 8 goroutines over one Program, cycling through the three interfaces')
+                'then executed 9 times in a row and from 8 goroutines over one Program, cycling through the three interfaces; '
+                '(c) one HISTORY of parses exported from Gen_ParseHistory: 2 (pairs: a rejected source that fails at one '
+                'of the places -- in an action, a loop body of each kind, nested loops, a function body, BEGIN, END, the '
+                'pattern, after the | of a getline, inside / after a parenthesised comma list, at top level, in the resolver '
+                '-- followed by an unbroken source of every statement kind in every context) or 5 (random walks) abstract '
+                'sources, rendered and parsed in that order in one process, three rounds (non-trivial when a source whose '
+                'verdict depends on the parser context follows a rejected one); (d) one program over the instructions that '
+                'start commands, executed by 3-4 interpreters each with a command string of its own, one after the other '
+                'and concurrently (2-3 executions per goroutine), replayed also under the race detector')
     ctx.assumptions += [
         'the compiled program is observed through Program.Disassemble and the exported tables of Program.Compiled '
         '(Begin, Actions, End, Functions, Nums, Strs, Regexes)',
@@ -135,6 +174,24 @@ def run(ctx):
         'and expects every execution to call the function that is in the map when it starts',
         'executions on ONE Interpreter object repeated with Execute are not part of this property (the statement gives '
         'every execution its own interpreter; reuse is C14)',
+        'parse histories: the specification gives accept/reject per source (compared) and an error CLASS (exported for '
+        'information, not compared: the statement demands the same message and position every time, not a particular '
+        'one); message, position, disassembly and compiled tables are compared with the first parse of the same text '
+        'in the replay process, and -- on a deviation -- with a parse of the text alone in a new process, which also '
+        'decides whether the history of the case itself or other parses of the process are named as the cause; '
+        'histories of different cases run concurrently in one process (the property says that must not matter)',
+        'parse histories cover the parser context of statements (next/nextfile/break/continue/return, getline forms, '
+        'comma lists); sources are small (one statement of interest, at most two nested loops); parser state that no '
+        'modelled statement reads is observed only through the comparison with the first parse',
+        'commands: the command string is `echo <id>` (plus `read v; echo $v` for print | cmd), run by /bin/sh with an '
+        'empty environment; the executions get Output/Error writers that are safe for concurrent use, because os/exec '
+        'copies a running command\'s output into them from its own goroutine while the interpreter writes (sharing inside '
+        'ONE execution is C13\'s subject); print | cmd is always followed by close(cmd), so that the order of the output is '
+        'specified; a result that differs without showing another execution\'s id counts only if it differs in 3 runs of '
+        'the case, and a case whose output names the expired Cmd.WaitDelay (child output lost on a starved machine) is '
+        'skipped; cases that start processes run one at a time',
+        'a race reported by the detector is attributed to goawk by the first goawk frame of a writing access; reports whose '
+        'writers are all outside goawk are a harness defect (exit 2), never a verdict',
     ]
     ctx.build()
     w4 = min(4, ctx.cores)
@@ -198,6 +255,37 @@ def run(ctx):
         c = ctx.cfg('MC_SharedProgram', name='MC_SharedProgram_reuse', constants=dict(sp, MaxRuns=2, MaxLen=1, ReuseInterp='TRUE'),
                     drop=['INVARIANTS'], add='INVARIANTS Equivalent')
         expect_refuted(ctx, 'MC_SharedProgram', c, ('Equivalent',), timeout=900)
+        # (c) histories of parses: the verdict is a function of the source alone ...
+        ph = dict(MaxHist=4 if q else 8, Rich='TRUE', Survives='{}')
+        c = ctx.cfg('MC_ParseHistory', name='MC_ParseHistory_ok', constants=ph)
+        ctx.tlc('MC_ParseHistory', c, timeout=1500)
+        # ... and not for a recycled parser that keeps its context fields (all of them; thorough: each one alone; that
+        # every single field has a refuting history of two parses is also an ASSUME of the module)
+        slips = ['{"inAction", "loopDepth", "inFunc", "pending", "multi"}']
+        if not q:
+            slips += ['{"%s"}' % f for f in ('inAction', 'loopDepth', 'inFunc', 'pending', 'multi')]
+        for k, sv in enumerate(slips):
+            c = ctx.cfg('MC_ParseHistory', name=f'MC_ParseHistory_pooled{k}', constants=dict(ph, MaxHist=2, Survives=sv),
+                        drop=['INVARIANTS'], add='INVARIANTS HistoryIndependent')
+            expect_refuted(ctx, 'MC_ParseHistory', c, ('HistoryIndependent',), timeout=900)
+        # (d) programs that start commands, every process with a command string of its own ...
+        sh = dict(NProc=2, MaxLen=2, MaxRuns=1, SharedCache='FALSE', ReuseInterp='FALSE', SharedShellArgs='FALSE', Cmds='TRUE')
+        c = ctx.cfg('MC_SharedProgram', name='MC_SharedProgram_shell', constants=sh)
+        ctx.tlc('MC_SharedProgram', c, timeout=1500, heap='8g')
+        if not q:
+            c = ctx.cfg('MC_SharedProgram', name='MC_SharedProgram_shell3', constants=dict(sh, NProc=3, MaxLen=1))
+            ctx.tlc('MC_SharedProgram', c, timeout=1500, heap='8g')
+            c = ctx.cfg('MC_SharedProgram', name='MC_SharedProgram_shell_r2', constants=dict(sh, MaxRuns=2, MaxLen=1))
+            ctx.tlc('MC_SharedProgram', c, timeout=1500, heap='8g')
+        # ... and the slip: the argument vector of a started command is one process-level location.  Another
+        # interpreter's command is run (Equivalent); thorough: the write itself is also exhibited (NoSharedWrite)
+        c = ctx.cfg('MC_SharedProgram', name='MC_SharedProgram_shellargs', constants=dict(sh, SharedShellArgs='TRUE'),
+                    drop=['INVARIANTS'], add='INVARIANTS Equivalent')
+        expect_refuted(ctx, 'MC_SharedProgram', c, ('Equivalent',), timeout=900)
+        if not q:
+            c = ctx.cfg('MC_SharedProgram', name='MC_SharedProgram_shellargs_w', constants=dict(sh, SharedShellArgs='TRUE'),
+                        drop=['INVARIANTS'], add='INVARIANTS NoSharedWrite NoForeignRead')
+            expect_refuted(ctx, 'MC_SharedProgram', c, ('NoSharedWrite', 'NoForeignRead'), timeout=900)
     # ---- 2. spec -> code ----
     g = ctx.cfg('Gen_Resolver', name='Gen_Resolver_multi3', constants=res(Family='"multi"', NFm=3))
     ctx.tlc('Gen_Resolver', g, capture='cases.ndjson', timeout=900)
@@ -233,11 +321,32 @@ def run(ctx):
     # three processes (one per execution interface), two executions each, richer instruction menu
     g = ctx.cfg('Gen_SharedProgram', name='Gen_SharedProgram_sim', constants=dict(sp, NProc=3, MaxLen=3, MaxRuns=2, Rich='TRUE'))
     ctx.tlc('Gen_SharedProgram', g, capture='cases.ndjson', simulate=(500 if q else 20000), depth=80, workers=w4, timeout=1500)
+    # histories of parses: every failing place x every statement kind in every context, and random walks
+    g = ctx.cfg('Gen_ParseHistory', name='Gen_ParseHistory_pairs', constants=dict(Fam='"pairs"', Rich='FALSE' if q else 'TRUE'))
+    ctx.tlc('Gen_ParseHistory', g, capture='cases.ndjson', workers=w4, timeout=1500)
+    if not q:   # (quick: random histories come from the recorded direction, Trace_ParseHistory, below)
+        g = ctx.cfg('Gen_ParseHistory', name='Gen_ParseHistory_walk', constants=dict(Fam='"walk"', HistLen=5))
+        ctx.tlc('Gen_ParseHistory', g, capture='cases.ndjson', simulate=20000, depth=8, workers=1, timeout=1500)
+    # programs that start commands, for free-running concurrent executions with a command string each: every body of
+    # one or two instructions; quick replays the bodies of one instruction and a seeded sample of those of two (every
+    # case starts some tens of processes)
+    shg = dict(sp, Fam='"shell"', NG=3 if q else 4)
+    g = ctx.cfg('Gen_SharedProgram', name='Gen_SharedProgram_shell', constants=shg)
+    ctx.tlc('Gen_SharedProgram', g, capture='cases_shell_all.ndjson', workers=1, timeout=900)
+    allsh = sorted(set(open(ctx.path('cases_shell_all.ndjson'))))      # (TLC may print an exported line twice)
+    if q:
+        one = [x for x in allsh if len(json.loads(x)['body']) == 1]
+        two = [x for x in allsh if len(json.loads(x)['body']) == 2]
+        random.Random(ctx.seed).shuffle(two)
+        allsh = one + two[:10]
+    open(ctx.path('cases_shell.ndjson'), 'w').writelines(allsh)
     ctx.cov['exhaustive'] = True
     ctx.replay('cases.ndjson', label='gen-c19', min_cases=1000, corrupt=corrupt)
+    ctx.replay('cases_shell.ndjson', label='gen-c19-shell', min_cases=4, selftest=False)
+    ctx.selftest(ctx.path('cases_shell.ndjson'), 'C19', corrupt, 'gen-c19-shell', k=4)     # (every case starts processes)
     # the binding self-test again on the new families alone: sources with several collected errors; processes that
     # execute the program twice through the three interfaces
-    for label, key in (('gen-c19-collect', '"fam":"collect"'), ('gen-c19-runs2', '"runs":2')):
+    for label, key in (('gen-c19-collect', '"fam":"collect"'), ('gen-c19-runs2', '"runs":2'), ('gen-c19-history', '"fam":"history"')):
         with open(ctx.path(f'cases_{label}.ndjson'), 'w') as f:
             for line in open(ctx.path('cases.ndjson')):
                 if key in line:
@@ -271,6 +380,25 @@ def run(ctx):
                             f'execution {ev.get("proc")}, {ev.get("phase")}, through {ev.get("api")}, Funcs variant {ev.get("variant")})',
                             case=None, expected=info.get('expected'),
                             observed={k: ev.get(k) for k in ('api', 'variant', 'before', 'after', 'result')}, program=par.get('src'))
+    # histories of parses recorded from one process (deeper loop nests than the exported ones), validated with the
+    # operators of ParseHistory.tla
+    nh = 150 if q else 3000
+    ctx.harness(['C19', 'record-history', '-seed', str(ctx.seed), '-n', str(nh), '-out', ctx.path('trace_hist.ndjson')])
+    rejects = ctx.validate_traces('Trace_ParseHistory', 'Trace_ParseHistory', 'trace_hist.ndjson', label='trace-history',
+                                  corrupt_event=corrupt_event, timeout=1500)
+    for r in rejects:
+        ev = r['trace'][r['pos']]
+        exp = (r['info'] or {}).get('expected', {})
+        if ev.get('v') == 'panic':
+            sig = f'C19/parse-history/panic/recorded-{ev.get("probe")}{ev.get("after")}'
+        elif ev.get('v') != exp.get('v'):
+            sig = f'C19/parse-history/verdict/recorded-spec-{exp.get("v")}/{ev.get("probe")}{ev.get("after")}'
+        else:
+            sig = f'C19/parse-history/outcome-varies/recorded-{ev.get("probe")}{ev.get("after")}'
+        ctx.add_failure(sig, f'recorded history rejected by Trace_ParseHistory at event {r["line"]}: ParseProgram gave '
+                        f'"{ev.get("outcome")}" (first parse of the same text in the process: "{ev.get("first")}")',
+                        case=None, expected=exp, observed={k: ev.get(k) for k in ('v', 'same', 'outcome', 'first')},
+                        program=''.join(e.get('text', '') for e in r['trace'][:r['pos'] + 1] if e.get('ev') == 'step'))
     # ---- 4. the recording again under the race detector (an instrument, not an oracle): quick = the fixed menu ----
     th.join()
     if 'err' in race:
@@ -279,6 +407,24 @@ def run(ctx):
     prefix = ctx.path('race')
     ctx.harness(['C19', 'record', '-seed', str(ctx.seed + 100), '-n', str(nrace), '-out', ctx.path('trace_race.ndjson')],
                 binary=race['bin'], env={'GORACE': f'log_path={prefix} halt_on_error=0 exitcode=0'}, timeout=3000)
+    # ... and the programs that start commands, every execution with its own command string
+    rout = ctx.path('summary_race_shell.json')
+    ctx.harness(['C19', 'replay', '-in', ctx.path('cases_shell.ndjson'), '-out', rout], binary=race['bin'],
+                env={'GORACE': f'log_path={prefix} halt_on_error=0 exitcode=0'}, timeout=3000)
+    rs = json.load(open(rout))
+    if rs['sig_counts'].get('HARNESS-PANIC'):
+        raise MachineryError('race build: harness panicked: ' + [x for x in rs['failures'] if x['sig'] == 'HARNESS-PANIC'][0]['what'][:2000])
+    if rs['n'] < 4:
+        raise MachineryError(f'race build: only {rs["n"]} shell cases replayed')
+    if rs['skipped']:
+        ctx.notes.append(f'race build: {rs["skipped"]} of {rs["n"]} shell cases skipped (command output lost by a starved machine)')
+    ctx.cov['evaluations'] += rs['n']
+    ctx.cov['race_detector_shell_cases'] = rs['n'] - rs['skipped']
+    for f in rs['failures']:
+        ctx.failures.append(f)
+    for k, v in rs['sig_counts'].items():
+        ctx.sig_counts[k] = ctx.sig_counts.get(k, 0) + v
+    ctx.log(f"race build, shell family: {rs['n']} behaviours replayed, {rs['skipped']} skipped, failing signatures: {rs['sig_counts'] or 'none'}")
     reps = race_reports(prefix)
     nrec = sum(1 for line in open(ctx.path('trace_race.ndjson')) if '"op":"parse"' in line)
     ctx.cov['race_reports'] = len(reps)
